@@ -32,6 +32,8 @@ type C08Present struct {
 	// each remembered by the server before it fails to decrypt) arrive one
 	// after the other at this instant
 	Junk int `json:"junk,omitempty"`
+	// StepMS: the server clock jumps by this much right before this presentation
+	StepMS int64 `json:"step_ms,omitempty"`
 }
 
 type C08Scenario struct {
@@ -90,6 +92,10 @@ func genC08History(g *Gen) any {
 		}
 		if g.Bool(0.15) {
 			p.Alter = alterOtherTransport
+		}
+		if g.Bool(0.15) {
+			// the server's wall clock is stepped (NTP, an operator) right before
+			p.StepMS = int64(g.Pick(-1000, -2000, -30000, -30000, 2000))
 		}
 		sc.Presents = append(sc.Presents, p)
 	}
@@ -287,6 +293,10 @@ func runC08(c *Ctx, scAny any) {
 				simsync.AtomicLeave()
 				c.Probe("junk_flood")
 				continue
+			}
+			if p.StepMS != 0 {
+				w.Skew += time.Duration(p.StepMS) * time.Millisecond
+				c.Probe("server_clock_stepped")
 			}
 			present(p.Alter, p.N)
 		}
